@@ -470,7 +470,7 @@ def _c(t, src="const"):
 
 def drv_tmpl(ch):
     name = ch.all("tmpl", ["slices_split", "scatter_dynamic", "two_reshape_matmul", "expand_binary", "if_nested_fold",
-                           "shared_const", "shared_shape"])
+                           "shared_const", "shared_shape", "cast_chain"])
     i, f = mz.i, mz.f
     if name == "slices_split":
         last = ch.all("last", [4, 6, 5, "N"])
@@ -537,6 +537,17 @@ def drv_tmpl(ch):
                  {"op": "Relu", "i": [{"n": 1}]}]
         spec = {"ins": [["x", "f32", ["N", 3]]], "nodes": nodes, "outs": [{"n": 2}, {"n": 1}], "wrap": w}
         bind = {"N": 2}
+    elif name == "cast_chain":
+        # Cast(Cast(x: t1, t2), t3) on a typed runtime input, every triple over signed/unsigned/narrow/wide integers,
+        # floats and bool: a cast-cast fusion is sound only when t1 -> t2 loses nothing (negatives wrap under a
+        # signed -> unsigned cast of any width; seeded C03h)
+        t1 = ch.all("t1", ["i8", "i32", "i64", "u8", "f32", "f16", "b"])
+        t2 = ch.all("t2", ["u8", "i8", "i32", "i64", "f32", "f16", "f64", "b"])
+        t3 = ch.all("t3", ["i32", "i64", "f32", "u8", "b"])
+        nodes = [{"op": "Cast", "a": {"to": int(mz.OT[t2])}, "i": [{"x": "x"}]},
+                 {"op": "Cast", "a": {"to": int(mz.OT[t3])}, "i": [{"n": 0}]}]
+        spec = {"ins": [["x", t1, [2, 3]]], "nodes": nodes, "outs": [{"n": 1}]}
+        bind = {}
     elif name == "shared_shape":
         # one shape tensor (given directly or computed from constants by foldable ops, so that after folding it is an
         # in-memory tensor) shared by a Reshape-Reshape chain, a second Reshape of another value and a graph output:
